@@ -129,7 +129,7 @@ def applyOp (s : St) (op : String) (implVerdict : String) : StepOut :=
   | "start" => fin (start m)
   | "stop" => fin (onSt (onSt m (·.stop false)) fun s => { s with gateOpen := false, gateRead := false })
   | "verify" => fin (onSt (handleVerifyCommand m) fun s => { s with gateOpen := false, gateRead := false })
-  | "obs" | "announce" | "diskcheck" => fin m
+  | "obs" | "announce" | "diskcheck" | "magnet" => fin m
   | "mutate" =>
     if !s.openFiles.isEmpty || s.errC then fin m "skipped:not-stopped" else
     let file := if kvStr toks "file" = "all" then none else some (kvNat toks "file")
@@ -168,7 +168,8 @@ def applyOp (s : St) (op : String) (implVerdict : String) : StepOut :=
         | "exths" =>
           let hasMeta := (kvStr toks "m").splitOn "+" |>.any (fun kvp => kvp.startsWith "ut_metadata:")
           let size := if kvStr toks "size" = "true" then s.isize else kvNat toks "size"
-          fin (handleExtHandshake m k hasMeta size)
+          let hasPex := (kvStr toks "m").splitOn "+" |>.any (fun kvp => kvp.startsWith "ut_pex:")
+          fin (handleExtHandshake m k hasMeta size hasPex)
         | "metadata" =>
           let i := kvNat toks "i"
           let trueLen := if i * 16384 < s.isize then min 16384 (s.isize - i * 16384) else 0
@@ -212,6 +213,7 @@ def applyOp (s : St) (op : String) (implVerdict : String) : StepOut :=
 /-- Driver state: the model state plus a piece message parked while a write is in flight. -/
 structure DSt where
   s : Option St := none
+  implDials : Nat := 0
   parked : Option (Nat × Nat × Nat × Nat × Bool) := none
 
 def renderObs (s : St) (verdict : String) (outs : List Out) (impl : List (String × String))
@@ -237,6 +239,9 @@ def renderObs (s : St) (verdict : String) (outs : List Out) (impl : List (String
     | "dl" => dlTok
     | "idl" => joinOrDash (s.idls.map fun d => toString d.k)
     | "dials" => toString s.dials
+    | "pexon" => joinOrDash ((s.peers.filter (·.pexOn)).map fun p => toString p.k)
+    | "pid" => if s.cfg.isPrivate && s.infoAtAdd then "priv" else "pub"
+    | "magnet" => if s.info && s.cfg.isPrivate then "refused" else "ok"
     | "peers" => joinOrDash (s.peers.map fun p => toString p.k)
     | "npeers" => toString s.peers.length
     | "banned" => joinOrDash (sortStrings s.banned)
@@ -277,7 +282,7 @@ def renderObs (s : St) (verdict : String) (outs : List Out) (impl : List (String
   if verdict = "" then body else if body = "" then verdict else verdict ++ " " ++ body
 
 /-- Oracles on the implementation's observation, relative to the model's ground truth. -/
-def oracles (prev s : St) (impl : List (String × String)) : List String :=
+def oracles (prev s : St) (impl : List (String × String)) (prevDials : Nat := 0) : List String :=
   let get (k : String) : String := ((impl.find? fun (x, _) => x = k).map (·.2)).getD ""
   let implBf := get "bf"
   let bfBits := if implBf = "-" then [] else bitsOf implBf
@@ -311,7 +316,20 @@ def oracles (prev s : St) (impl : List (String × String)) : List String :=
   -- C17: reservations balance (one reservation per running download)
   let c17 := if get "ram" ≠ "" && get "ram" ≠ s!"{(parseDl (get "dl")).length}/{(parseDl (get "dl")).length * s.cfg.pl}"
     then [s!"C17 write-cache-reservations-unbalanced ram={get "ram"} downloads={(parseDl (get "dl")).length}"] else []
-  c01a ++ c01b ++ c01c ++ c04 ++ c10 ++ c17
+  -- C19: a private torrent never dials addresses from PEX/DHT, never starts PEX, uses its private identity
+  let priv := s.cfg.isPrivate && s.info
+  let c19 :=
+    (if priv && (get "dials").toNat?.getD 0 > prevDials then [s!"C19 private-torrent-dialled-exchanged-address dials={get "dials"}"] else []) ++
+    (if priv && get "pexon" ≠ "-" && get "pexon" ≠ "" then [s!"C19 private-torrent-started-pex peers={get "pexon"}"] else []) ++
+    (if priv && get "magnet" = "ok" then ["C19 private-torrent-exported-magnet"] else []) ++
+    (if s.cfg.isPrivate && s.infoAtAdd && get "pid" ≠ "" && get "pid" ≠ "priv" then [s!"C19 private-torrent-public-peer-id pid={get "pid"}"] else []) ++
+    (if priv then impl.flatMap fun (k, v) =>
+        if k.startsWith "p" && (k.drop 1).toString.toNat?.isSome then
+          (commaList v).filterMap fun msg =>
+            if msg.startsWith "exths:" && (msg.splitOn "v=PrivClient_1").length < 2 then some "C19 private-torrent-public-client-version" else none
+        else []
+      else [])
+  c01a ++ c01b ++ c01c ++ c04 ++ c10 ++ c17 ++ c19
 
 /-- C04: after the final phase (restart + honest seed answering every request) the torrent must be
 complete with correct files. -/
@@ -331,7 +349,7 @@ def stepDriver (d : DSt) (op implObs : String) : DSt × String × List String :=
     let c := parseNew toks
     let (v, impl) := splitObs implObs
     let s := initSt c (kvStr toks "magnet" = "1")
-    let s := { s with isize := (((impl.find? fun (k, _) => k = "isize").bind fun (_, x) => x.toNat?)).getD 0,
+    let s := { s with infoAtAdd := kvStr toks "magnet" ≠ "1", isize := (((impl.find? fun (k, _) => k = "isize").bind fun (_, x) => x.toNat?)).getD 0,
                       maxMeta := ((kv? toks "cfg.MaxMetadataSize").bind (·.toNat?)).getD 31457280,
                       parMeta := ((kv? toks "cfg.ParallelMetadataDownloads").bind (·.toNat?)).getD 2 }
     if v ≠ "ok" then ({ s := none }, implObs, [])
@@ -378,9 +396,10 @@ def stepDriver (d : DSt) (op implObs : String) : DSt × String × List String :=
                    else "inadmissible[" ++ (";".intercalate errs).replace " " "_" ++ "]"
       -- C17: a connection whose handshake failed must be closed, not kept
       let c17hs := if toks.headD "" = "peer" && implVerdict = "refused" then ["C17 failed-handshake-socket-left-open"] else []
-      let viol := oracles s st2 impl ++ finalOracle st2 op impl ++ c17hs ++ errs.map (fun e => "C09 picker-choice-inadmissible " ++ e.replace " " "_")
+      let viol := oracles s st2 impl d.implDials ++ finalOracle st2 op impl ++ c17hs ++ errs.map (fun e => "C09 picker-choice-inadmissible " ++ e.replace " " "_")
         ++ errsI.map (fun e => "C13 metadata-download-inadmissible " ++ e.replace " " "_")
-      ({ s := some st2, parked := parked }, renderObs st2 r.verdict outs1 impl dlTok, viol)
+      let implDials := (((impl.find? fun (k, _) => k = "dials").bind fun (_, x) => x.toNat?)).getD d.implDials
+      ({ s := some st2, parked := parked, implDials := implDials }, renderObs st2 r.verdict outs1 impl dlTok, viol)
 
 def mkSuite (name : String) : Suite where
   name := name
